@@ -108,11 +108,12 @@ theorem C05.rewrite_refuses (name : String) (idx : Nat) (b : RNode) :
 
 /-- the decision of `evalForInteger` / `extendFunctionEnv` for one variable never panics, and the
 variable lives in a register iff: integer value, non-empty name, registers enabled, a register free,
-not a constant name, and the body does not refuse.  The file grows by exactly that register. -/
+not a constant name, not a reserved name (`self`, `info`; repo fix: such a name is not read from the variable), and the body
+does not refuse.  The file grows by exactly that register. -/
 theorem C05.useRegister_spec (noReg : Bool) (f : Reg.File) (name : String) (isInt : Bool) (v : Int) (body : RNode) :
     ∃ d, useRegister noReg f name isInt v body = .ok d ∧
       (d.kept = true ↔ (isInt = true ∧ name ≠ "" ∧ noReg = false ∧ f.numReg < Reg.numRegisters ∧
-                        isConstant name = false ∧ refuses name f.numReg body = false)) ∧
+                        isConstant name = false ∧ reservedName name = false ∧ refuses name f.numReg body = false)) ∧
       (d.kept = true → d.file.numReg = f.numReg + 1 ∧ d.idx = some f.numReg ∧
           d.body = if countIdent name body = 0 then body else substAll name f.numReg body) ∧
       (d.kept = false → d.file.numReg = f.numReg ∧ d.body = body) := by
@@ -121,7 +122,7 @@ theorem C05.useRegister_spec (noReg : Bool) (f : Reg.File) (name : String) (isIn
   · have he' := he
     simp only [registerEligible, Bool.and_eq_true, Bool.not_eq_true', bne_iff_ne, ne_eq, Reg.File.hasRegisters,
       decide_eq_true_eq] at he'
-    obtain ⟨hi, ⟨⟨hn, hr⟩, hh⟩, hc⟩ := he'
+    obtain ⟨hi, ⟨⟨⟨hn, hr⟩, hh⟩, hc⟩, hrs⟩ := he'
     have hh' : f.hasRegisters = true := by simpa [Reg.File.hasRegisters] using hh
     simp only [he, Bool.not_true, Bool.false_eq_true, if_false, Reg.File.make, hh']
     rw [modifyR_spec]
@@ -129,13 +130,13 @@ theorem C05.useRegister_spec (noReg : Bool) (f : Reg.File) (name : String) (isIn
     · simp only [hrf, if_true, Reg.File.release]
       simp [hrf]
     · simp only [hrf, if_false]
-      simp [hi, hn, hr, hh, hc, hrf]
+      simp [hi, hn, hr, hh, hc, hrs, hrf]
   · simp only [he, Bool.not_false, if_true]
     refine ⟨_, rfl, ?_, by simp, by simp⟩
     simp only [Bool.false_eq_true, false_iff]
-    intro ⟨hi, hn, hr, hh, hc, _⟩
+    intro ⟨hi, hn, hr, hh, hc, hrs, _⟩
     apply he
-    simp [registerEligible, hi, hn, hr, hc, Reg.File.hasRegisters, hh]
+    simp [registerEligible, hi, hn, hr, hc, hrs, Reg.File.hasRegisters, hh]
 
 /-- non-vacuity: `for i = 3 { s = s + i * i }` rewrites both occurrences of `i` -/
 example : modifyRegister "i" 0 (.stmts [.inf "ASSIGN" (.ident "s") (.inf "PLUS" (.ident "s") (.inf "ASTERISK" (.ident "i") (.ident "i")))]) =
@@ -154,19 +155,21 @@ end Grol.RegRewrite
 
 The parameter site (`extendFunctionEnv`) is driven for real by the `regrewrite` suite.  The loop site
 (`evalForInteger`) cannot be observed without running the loop: its test is pinned here as source text, and
-`Grol.RegRewrite.registerEligible noReg f name = (name != "" && !noReg && f.hasRegisters && !isConstant name)`
-is that text with `s.NoReg` ↦ `noReg`, `s.env.HasRegisters()` ↦ `f.hasRegisters`, `object.Constant` ↦ `isConstant`.
+`Grol.RegRewrite.registerEligible noReg f name = (name != "" && !noReg && f.hasRegisters && !isConstant name && !reservedName name)`
+is that text with `s.NoReg` ↦ `noReg`, `s.env.HasRegisters()` ↦ `f.hasRegisters`, `object.Constant` ↦ `isConstant`,
+`object.ReservedName` ↦ `reservedName` (`self`, `info`; the names of registered extension functions, the third kind, are
+told to the regrewrite suite per candidate by the harness).
 The parameter test is the same conjunction without `name != ""` (the empty name is a constant name:
 `isConstant "" = true`), with the integer test (`isInt` in `useRegister`) and `!ownName` (the parameter is not
 named like the function itself; the hook's function has no name). A change of either expression fails here. -/
 namespace Grol.Generated.RegFacts
 
 theorem C05.loop_eligibility_pinned :
-    loopEligibility = ["name != \"\" && !s.NoReg && s.env.HasRegisters() && !object.Constant(name)"] := by decide
+    loopEligibility = ["name != \"\" && !s.NoReg && s.env.HasRegisters() && !object.Constant(name) && !object.ReservedName(name)"] := by decide
 
 theorem C05.param_eligibility_pinned :
-    paramEligibility = ["!s.NoReg && pval.Type() == object.INTEGER && env.HasRegisters() && !object.Constant(param.Value().Literal()) && !ownName"] ∧
-    paramOwnName = ["fn.Name != nil && fn.Name.Literal() == param.Value().Literal()"] := by decide
+    paramEligibility = ["!s.NoReg && pval.Type() == object.INTEGER && env.HasRegisters() && !object.Constant(param.Value().Literal()) && !object.ReservedName(param.Value().Literal()) && !ownName"] ∧
+    paramOwnName = ["fn.Name != nil && fn.Name.Literal() == param.Value().Literal()"] := ⟨rfl, rfl⟩
 
 end Grol.Generated.RegFacts
 
@@ -174,6 +177,6 @@ namespace Grol.RegRewrite
 /-- the model's test, literally the pinned conjunction; and the empty name is never eligible at the parameter
 site either, where `name != ""` is not tested -/
 theorem C05.registerEligible_is_the_pinned_test (noReg : Bool) (f : Reg.File) (name : String) :
-    registerEligible noReg f name = (name != "" && !noReg && f.hasRegisters && !Grol.E.isConstant name) ∧
+    registerEligible noReg f name = (name != "" && !noReg && f.hasRegisters && !Grol.E.isConstant name && !reservedName name) ∧
     Grol.E.isConstant "" = true := ⟨rfl, by decide⟩
 end Grol.RegRewrite
